@@ -20,10 +20,12 @@ def new_acc(label="acc", on_add=None, initial=None):
 
 def reset(acc):
     acc.fields["added"] = []
+    acc.fields.pop("len_z", None)
 
 
 def _add(I, obj, args, kwargs):
     x = args[0]
+    obj.fields.pop("len_z", None)        # the length changes with every append
     obj.fields["added"].append(x)
     cb = obj.fields.get("on_add")
     if cb is not None:
@@ -38,8 +40,11 @@ def _setitem(I, obj, args, kwargs):
 def _len(I, obj, args, kwargs):
     import z3
     from .values import SInt
-    n = I.ctx.fresh_int("acc_len")
-    I.ctx.assume(n >= 0)
+    n = obj.fields.get("len_z")
+    if n is None:
+        n = I.ctx.fresh_int("acc_len")       # one length per state of the accumulator: len(a) == len(a) between two appends
+        I.ctx.assume(n >= 0)
+        obj.fields["len_z"] = n
     return SInt(n)
 
 
